@@ -93,7 +93,7 @@ def _ops():
         "find_all_descendants_every": lambda r: [fad(r, x) for x in sorted({n.name for n in walk(r)})],
         "get_ancestry": lambda r: pick(r, 7).get_ancestry(),
         "child_index": lambda r: r.child_index(pick(r, 8)),
-        "child_insert_index": lambda r: rule_for(r).child_insert_index(r, Node(first_name(r))),
+        "child_insert_index": lambda r: rule_for(r).child_insert_index(r, G_candidate(r)),
         "is_allowed_child": lambda r: rule_for(r).is_allowed_child(first_name(r)),
         "is_equal": lambda r: Node.is_equal(pick(r, 9), pick(r, 10)),
         "is_equal_copy": lambda r: Node.is_equal(r, G_copy(r)),
@@ -106,6 +106,12 @@ def _ops():
 
 
 _COPIES = {}
+_CANDS = {}
+
+
+def G_candidate(root):
+    # the candidate child for child_insert_index is created once per trace (creating a node registers it)
+    return _CANDS[id(root)]
 
 
 def G_copy(root):
@@ -163,14 +169,18 @@ def record(kind, seed, plan):
     w.track_tree(root)
     _COPIES.clear()
     _COPIES[id(root)] = root.copy()      # registered, but never tracked: excluded from the projection
+    _CANDS.clear()
+    _CANDS[id(root)] = Node(root.children[0].name if root.children else "zz")
     tr = {"init": w.pi(ALLF), "events": [], "desc": {"tree": kind, "seed": seed, "nodes": len(w.nodes)}}
     names = sorted(ops)
     for name in names + list(plan):
+        reg_before = len(Node.store)
         try:
             res = render(w, ops[name](root))
         except Exception as e:  # noqa: BLE001 - an exception is a result too (C04/C19 judge whether it may escape)
             res = "raised:" + type(e).__name__
-        tr["events"].append({"op": "readonly", "fn": name, "args": [], "ok": True, "ret": 0, "res": w.atoms.atom(res), "post": w.pi(ALLF)})
+        tr["events"].append({"op": "readonly", "fn": name, "args": [], "ok": True, "ret": 0, "res": w.atoms.atom(res), "post": w.pi(ALLF),
+                             "regdelta": len(Node.store) - reg_before})
     return tr
 
 
